@@ -46,6 +46,9 @@ class Contract:
         self.note = ""
         self.opaque_results: Dict[str, str] = {}
         self.opaque_calls: List[str] = []
+        self.opaque_elems: Dict[str, str] = {}
+        self.may_raise: List[str] = []
+        self.checks: Dict[str, ast.expr] = {}
 
 
 class SpecFunc:
@@ -86,9 +89,11 @@ def load_contracts(paths) -> "SpecEnv":
                     elif name == "properties": c.properties = ast.literal_eval(v)
                     elif name == "opaque_results": c.opaque_results = ast.literal_eval(v)
                     elif name == "opaque_calls": c.opaque_calls = ast.literal_eval(v)
+                    elif name == "opaque_elems": c.opaque_elems = ast.literal_eval(v)
+                    elif name == "may_raise": c.may_raise = ast.literal_eval(v)
                     elif name == "note": c.note = ast.literal_eval(v)
                     elif name == "requires": c.requires = _lam(v)
-                    elif name in ("ensures", "raises", "on_raise", "loops", "lemmas"):
+                    elif name in ("ensures", "raises", "on_raise", "loops", "lemmas", "checks"):
                         if isinstance(v, ast.Dict):
                             d = {ast.literal_eval(k): _lam(x) for k, x in zip(v.keys, v.values)}
                         else:
